@@ -151,6 +151,17 @@ func (w *c16World) watched() string {
 	return strings.Join(l, ",")
 }
 
+func kvOf(f []string, key string) (int, bool) {
+	for _, x := range f {
+		if strings.HasPrefix(x, key+"=") {
+			var n int
+			fmt.Sscan(x[len(key)+1:], &n)
+			return n, true
+		}
+	}
+	return 0, false
+}
+
 func c16Exec(tr *vh.Transcript, ops []string) {
 	w := &c16World{chain: vh.NewFakeChain(c16Addr("cf")), rec: &vh.Rec{}, ctls: map[string]*c16Ctl{}, gen: map[string]int{}}
 	defer func() {
@@ -183,14 +194,39 @@ func c16Exec(tr *vh.Transcript, ops []string) {
 			}
 			set(c, f[2:])
 			w.chain.Add(c)
-		case "startmgr":
-			w.start()
-		case "restart":
-			if w.cancel != nil {
+		case "startmgr", "restart":
+			if f[0] == "restart" && w.cancel != nil {
 				w.cancel()
 				synctest.Wait()
 			}
-			w.start()
+			// `rpcfail=<k>`: the node refuses the (k+1)-th call of the start-up scan.  The process then ends, and its
+			// supervisor starts it again (a refused call that does not end the start-up leaves the scan incomplete)
+			if k, ok := kvOf(f[1:], "rpcfail"); ok {
+				// what was recorded so far (the controllers of the previous run exiting) is kept; what the aborted
+				// start records (controllers started and stopped again, the manager's error) is not part of the history
+				w.rec.Mu.Lock()
+				saved := map[string][]string{}
+				for n, l := range w.rec.Streams {
+					saved[n] = append([]string{}, l...)
+				}
+				w.rec.Mu.Unlock()
+				w.chain.SetFailAfter(k, 1)
+				w.start()
+				synctest.Wait()
+				w.chain.SetFailCalls(0)
+				select {
+				case <-w.done:
+					w.cancel()
+					synctest.Wait()
+					w.rec.Mu.Lock()
+					w.rec.Streams = saved
+					w.rec.Mu.Unlock()
+					w.start()
+				default:
+				}
+			} else {
+				w.start()
+			}
 		case "created":
 			c := &vh.ChainContract{Addr: c16Addr(f[1]), Length: 3600, Speed: 1e14, Price: 1, Version: 1}
 			set(c, f[2:])
@@ -311,7 +347,11 @@ func c16Gen(r *vh.Rng, orderly bool) []string {
 			ops = append(ops, fmt.Sprintf("chain %s seller=%s buyer=- validator=- state=0", n, seller))
 		}
 	}
-	ops = append(ops, "startmgr")
+	if r.Bool(35) {
+		ops = append(ops, fmt.Sprintf("startmgr rpcfail=%d", r.Intn(8)))
+	} else {
+		ops = append(ops, "startmgr")
+	}
 	n := 4 + r.Intn(14)
 	for i := 0; i < n; i++ {
 		c := vh.Pick(r, names)
@@ -345,7 +385,11 @@ func c16Gen(r *vh.Rng, orderly bool) []string {
 		case k < 92 && s.exists:
 			ops = append(ops, fmt.Sprintf("deleted %s %d", c, r.Intn(2)))
 		case k < 97:
-			ops = append(ops, "restart")
+			if r.Bool(35) {
+				ops = append(ops, fmt.Sprintf("restart rpcfail=%d", r.Intn(10)))
+			} else {
+				ops = append(ops, "restart")
+			}
 			for _, x := range cs {
 				x.stale = false // every controller is new after a restart
 			}
